@@ -8,6 +8,8 @@ CONSTANTS
   GeCmp = TRUE
   AwaitStop = TRUE
   NotifyPop = TRUE
+  ReleaseOnEnd = TRUE
+  Faults = TRUE
   MaxOps = 1000
   MaxCancel = 1000
 INVARIANT Sound
